@@ -25,6 +25,7 @@ func writeEvidence(prop, tier string, seed int, results []*HarnessResult, wall f
 	inconclusive := []string{}
 	events, threads := 0, 0
 	states, steps, replays := 0, 0, 0
+	validated, validatedOK := 0, 0
 	for _, r := range results {
 		if r == nil {
 			continue
@@ -38,6 +39,8 @@ func writeEvidence(prop, tier string, seed int, results []*HarnessResult, wall f
 		events += r.Events
 		threads += r.Threads
 		states += r.Forks + 1
+		validated += r.Validated
+		validatedOK += r.ValidatedOK
 		steps += r.Steps
 		replays += r.Replays
 		for _, f := range r.Funcs {
@@ -130,8 +133,9 @@ func writeEvidence(prop, tier string, seed int, results []*HarnessResult, wall f
 		"exhaustive":           false,
 		"states":                        states,
 		"transitions":                   steps,
-		"traces_validated_against_impl": replays,
-		"states_rule":                   "states = symbolic states created (initial state of every harness plus one per fork); transitions = SSA instructions executed symbolically; traces_validated_against_impl = solver counterexamples replayed natively in this run (0 when nothing was violated)",
+		"traces_validated_against_impl": replays + validated,
+		"translator_validation":         map[string]int{"witnesses_run_natively": validated, "agreeing": validatedOK},
+		"states_rule":                   "states = symbolic states created (initial state of every harness plus one per fork); transitions = SSA instructions executed symbolically; traces_validated_against_impl = solver models run against the natively compiled code in this run (counterexample replays plus reachability witnesses of replayable harnesses, whose native run must pass every assertion)",
 		"explanation":          "bounded symbolic execution of the go/ssa form of the listed functions; every obligation decided by an SMT solver for all values of the symbolic inputs inside the stated bounds",
 	}
 	if events > 0 {
